@@ -32,7 +32,8 @@ let ofit_of (h : (string, int list) Hashtbl.t) (p : penalties) (ws : word list) 
   | Some lens ->
       incr rec_hits;
       let g = take_groups ws lens in
-      (match ofit_dp p ws lws with Some d when d = g -> incr rec_same_as_dp | _ -> ());
+      (* the quadratic reference search is a statistic only; skipped for very long paragraphs *)
+      (if List.length ws <= 300 then match ofit_dp p ws lws with Some d when d = g -> incr rec_same_as_dp | _ -> ());
       let sm = ofit_smawk p ws lws in
       (match sm with Some d when d = g -> incr rec_same_as_smawk | _ -> ());
       sm                              (* the model of smawk decides; the record is a cross-check *)
@@ -93,6 +94,10 @@ let model (e : env) (fields : string array) : string =
       end else sq
   | "of" ->
       let p = dpen (f 3) in
+      (* exact integers when every number is one (much faster than normalised rationals) *)
+      if all_int [f 1; f 2] then
+        opt_or_panic egroups (optimal_fit_smawk numZ (fun a b -> Z.eqb (Obj.obj a) (Obj.obj b)) id p (List.map (dfrag_with zconv) (dlist (f 1))) (List.map zconv (dlist (f 2))))
+      else
       let rq = optimal_fit_smawk numQ (fun a b -> qeq_bool (Obj.obj a) (Obj.obj b)) id p (List.map (dfrag_with qconv) (dlist (f 1))) (List.map qconv (dlist (f 2))) in
       opt_or_panic egroups rq
   | "wrap" -> wrap_s e (dopts (f 1)) (ds (f 2))
@@ -189,7 +194,18 @@ let of_equiv (fields : string array) (impl : string) : string =
   let fs = List.map (dfrag_with qconv) (dlist fields.(1)) and lws = List.map qconv (dlist fields.(2)) in
   let p = dpen fields.(3) in
   let ranges = List.map (fun (a, l) -> (nat_of_int a, nat_of_int (a + l))) (dgroups impl) in
-  let ci : q = Obj.obj (arrangement_cost numQ p fs lws ranges) and co : q = Obj.obj (opt_cost numQ p fs lws) in
+  let ci : q = Obj.obj (arrangement_cost numQ p fs lws ranges) in
+  if List.length fs > 400 then begin
+    (* the quadratic reference search is too slow here: equal cost with the model's own answer is a tie *)
+    match optimal_fit_smawk numQ (fun a b -> qeq_bool (Obj.obj a) (Obj.obj b)) id p fs lws with
+    | Some mg ->
+        let off = ref 0 in
+        let mr = List.map (fun g -> let l = List.length g in let r = (nat_of_int !off, nat_of_int (!off + l)) in off := !off + l; r) mg in
+        let cm : q = Obj.obj (arrangement_cost numQ p fs lws mr) in
+        if qeq_bool ci cm then "ok-tie" else "DIFF"
+    | None -> "DIFF"
+  end else
+  let co : q = Obj.obj (opt_cost numQ p fs lws) in
   if qeq_bool ci co then "ok-tie" else if c03_pre fs lws then "DIFF" else "ok-outside-c03"
 
 (* a result with the Cow kinds erased: "B12:61.62" / "S:_" / "O:61" -> "L:..."; the hex
